@@ -28,6 +28,8 @@ def main():
         meta = json.loads((d / "meta.json").read_text())
         r = json.loads((d / "result.json").read_text()) if (d / "result.json").exists() else {}
         now = "caught" if r.get("detected") else "MISSED"
+        if meta.get("moot") and r.get("demo_exit_with_patch") == 0:
+            now = "moot (no longer a violation)"
         if r.get("detected") and not r.get("concrete_input"):
             now += " (no-failing-input-found)"
         first = {"detected": "caught", "MISSED": "missed"}.get(fp.get(d.name, ""), "")
@@ -44,13 +46,14 @@ def main():
     out = ["| seed | round | change | first run | now | caught by |", "|---|---|---|---|---|---|"] + rows
     n = len(rows)
     c = sum(1 for r in rows if r.split("|")[5].strip().startswith("caught"))
+    moot = sum(1 for r in rows if r.split("|")[5].strip().startswith("moot"))
     per = {}
     for r in rows:
         cells = [x.strip() for x in r.split("|")]
         per.setdefault(cells[2], [0, 0])
         per[cells[2]][1] += 1
         per[cells[2]][0] += cells[4] == "caught"
-    print(f"{n} seeded changes; caught at first run: " + ", ".join(f"round {k}: {a}/{b}" for k, (a, b) in sorted(per.items())) + f"; caught now: {c}/{n}\n")
+    print(f"{n} seeded changes; caught at first run: " + ", ".join(f"round {k}: {a}/{b}" for k, (a, b) in sorted(per.items())) + f"; caught now: {c}/{n - moot} ({moot} moot)\n")
     print("\n".join(out))
 
 
